@@ -103,7 +103,10 @@ class SMI(Machine):
         return self.smap(lambda *xs: ''.join(xs), *parts)
 
     def render(self, fa):
-        """decode core::fmt::Arguments (template byte-code as printed in MIR) into a str / SymVal"""
+        return self.rope_join(self.render_pieces(fa))
+
+    def render_pieces(self, fa):
+        """decode core::fmt::Arguments (template byte-code as printed in MIR) into a list of str / SymVal pieces"""
         t = fa.template
         i = 0
         out = []
@@ -127,13 +130,13 @@ class SMI(Machine):
                 out.append(self.display(a.ref) if a.kind == 'new_display' else self.debug(a.ref))
             else:
                 raise Unsupported('fmt placeholder with options %x' % n)
-        return self.rope_join(out)
+        return out
 
     def sink_write(self, w, text):
         sink = w.fields[0] if isinstance(w, Adt) and w.name == 'Formatter' else w
         if not isinstance(sink, Sink):
             if isinstance(sink, RString):
-                sink.s = self.rope_join([sink.s, text])
+                sink.s = self.rope_join([sink.s] + (text if isinstance(text, list) else [text]))
                 return OK(())
             raise Unsupported('write_fmt into %r' % (sink,))
         if sink.fail_at is not None:
@@ -141,7 +144,10 @@ class SMI(Machine):
                 self.events.append(('sink_fail', sink.n))
                 return ERR(Opaque('io::Error', 'injected at write #%d' % sink.n))
         sink.n += 1
-        sink.rope.append(text)
+        if isinstance(text, list):
+            sink.rope.extend(text)
+        else:
+            sink.rope.append(text)
         return OK(())
 
     # ------------------------------------------------------------------ maps
@@ -227,7 +233,7 @@ class SMI(Machine):
         if c == 'must_use':
             return args[0]
         if meth == 'write_fmt':
-            return self.sink_write(d0, self.render(args[1]))
+            return self.sink_write(d0, self.render_pieces(args[1]))
         if meth == 'write_str' and isinstance(d0, Adt) and d0.name == 'Formatter':
             return self.sink_write(d0, args[1])
         if meth in ('write_all', 'write') and isinstance(d0, Sink):
@@ -369,6 +375,10 @@ class SMI(Machine):
                 return SOME(v) if ok else NONE()
             if meth == 'err':
                 return NONE() if ok else SOME(v)
+            if meth == 'is_ok_and':
+                return self.call_closure(args[1], [v]) if ok else False
+            if meth == 'is_err_and':
+                return False if ok else self.call_closure(args[1], [v])
             if meth == 'is_ok':
                 return ok
             if meth == 'is_err':
